@@ -28,6 +28,23 @@ CHECKS = {
              "off or by a refused write are not compared; one known finding kept out by a guard.",
         tech=TECH % ("", "oracle = n-dimensional array reference model"),
     ),
+    "C05": dict(
+        profile="coder", cat="exploration", ref="DESIGN.md section 4 C05, section 8",
+        text="Seeded search over coder histories: compressed elements (none, RLE, skipping Huffman skip 1..16, deflate "
+             "0..9) written sequentially in generated partitions with data classes around the coder limits (runs of "
+             "126..131 and 255..257, incompressible, periodic, zeros, sparse), read back on the writing id with "
+             "backward seeks, appended to by the same or a later access (a refusal must leave the stream intact), "
+             "rewritten in full, read through read accesses in other partitions with forward/backward seeks and "
+             "over-long requests, HCPgetdatasize/Hlength; n-bit through SDsetnbitdataset and through HCcreate for six "
+             "integer types x start bit x length x sign-extend x fill-one with multi-call whole-value writes, reads and "
+             "value seeks; bit elements (also longer than the 4096-byte buffer) written with widths 1..32, read with "
+             "other widths and bit seeks, and mixed overwrite/read/seek on one write-capable bit id; reopen. Oracles: "
+             "byte model, independently written n-bit projection, bit-vector model. 8 000 / 150 000 histories.",
+        note="Trusts the three small models; the n-bit projection follows cnbit.c's description (start bit = highest "
+             "bit of the field). Compressed streams are written sequentially or rewritten with a first call covering "
+             "the old length (the coders' documented rule); szip/JPEG are lossy or absent and not part of the property.",
+        tech=TECH % ("", "oracle = byte-stream, bit-vector and n-bit projection reference models"),
+    ),
     "C07": dict(
         profile="vdata", cat="exploration", ref="DESIGN.md section 4 C07",
         text="Seeded search over Vdata histories: generated schemas (1..5 fields, 9 number types, orders 1..3, stored "
@@ -157,7 +174,7 @@ NOT_APPLICABLE = {
 
 # claimed by the design but whose check is not built yet in this tree (moved to CHECKS as they land)
 PENDING = {
-    "C02": "format", "C03": "sdarray", "C04": "layout", "C05": "coder", "C07": "vdata", "C08": "vgroup",
+    "C02": "format", "C03": "sdarray", "C04": "layout", "C07": "vdata", "C08": "vgroup",
     "C09": "raster", "C10": "attrs", "C11": "annot", "C12": "ddmap", "C13": "handles", "C14": "readonly",
     "C16": "iofault", "C17": "crash", "C20": "limits",
 }
